@@ -1710,11 +1710,30 @@ class Interp:
             own_stmts.append(n)
             stack.extend(ast.iter_child_nodes(n))
         yields = [n for n in own_stmts if isinstance(n, (ast.Yield, ast.YieldFrom))]
-        if len(yields) != 1 or isinstance(yields[0], ast.YieldFrom) or any(isinstance(n, ast.Return) for n in own_stmts):
+        returns = [n for n in own_stmts if isinstance(n, ast.Return)]
+        if not yields or any(isinstance(y, ast.YieldFrom) for y in yields) or any(r_.value is not None for r_ in returns):
             return None
-        ystmt = getattr(yields[0], "_parent", None)
-        if not (isinstance(ystmt, ast.Expr) and ystmt.value is yields[0]):
+        ystmts = [getattr(y, "_parent", None) for y in yields]
+        if not all(isinstance(ys, ast.Expr) and ys.value is y for ys, y in zip(ystmts, yields)):
             return None
+        if len(yields) > 1 or returns:
+            # several yields (one per branch) and bare returns: the spliced body sits in a one-trip loop and `return` leaves it;
+            # that needs a with-body without break / continue of its own
+            def own_jumps(stmts):
+                for x in stmts:
+                    if isinstance(x, (ast.Break, ast.Continue)):
+                        return True
+                    if isinstance(x, (ast.For, ast.While, ast.AsyncFor) + FUNC_TYPES + (ast.ClassDef,)):
+                        continue
+                    for field in ("body", "orelse", "finalbody"):
+                        if own_jumps(getattr(x, field, None) or []):
+                            return True
+                    if isinstance(x, ast.Try) and any(own_jumps(h.body) for h in x.handlers):
+                        return True
+                return False
+            if own_jumps(s.body) or any(isinstance(n, (ast.For, ast.While)) and any(y in list(ast.walk(n)) for y in yields) for n in own_stmts):
+                return None
+        ystmt = ystmts[0]
         params = [p.arg for p in f.args.args]
         if bind_self:
             if not params or not fr.selfname:
@@ -1748,17 +1767,24 @@ class Interp:
         copy_nodes = [n for x in holder.body for n in ast.walk(x)]
         if len(orig_nodes) != len(copy_nodes):
             return None
-        ycopy = copy_nodes[orig_nodes.index(ystmt)]
+        ycopies = [copy_nodes[orig_nodes.index(ys)] for ys in ystmts]
+        rcopies = [copy_nodes[orig_nodes.index(r_)] for r_ in returns]
+        ycopy = ycopies[0]
         holder = _Ren().visit(holder)
-        yval = ycopy.value.value if isinstance(ycopy.value, ast.Yield) else None
-        bound = [ast.Assign(targets=[s.items[0].optional_vars], value=yval or ast.Constant(value=None))] if s.items[0].optional_vars is not None else []
-        replacement = bound + list(s.body)
+
+        def replacement_for(yc):
+            yval = yc.value.value if isinstance(yc.value, ast.Yield) else None
+            bound = [ast.Assign(targets=[s.items[0].optional_vars], value=yval or ast.Constant(value=None))] if s.items[0].optional_vars is not None else []
+            return bound + list(s.body)
 
         def splice(stmts):
             out = []
             for x in stmts:
-                if x is ycopy:
-                    out.extend(replacement)
+                if any(x is yc for yc in ycopies):
+                    out.extend(replacement_for(x))
+                    continue
+                if any(x is rc for rc in rcopies):
+                    out.append(ast.copy_location(ast.Break(), x))   # the generator ends here: so does the with statement
                     continue
                 for field in ("body", "orelse", "finalbody"):
                     sub = getattr(x, field, None)
@@ -1771,6 +1797,8 @@ class Interp:
             return out
 
         spliced = splice(holder.body)
+        if len(ycopies) > 1 or rcopies:
+            spliced = [ast.For(target=ast.Name(id=tag + "once", ctx=ast.Store()), iter=ast.Tuple(elts=[ast.Constant(value=None)], ctx=ast.Load()), body=spliced, orelse=[], type_comment=None)]
         # bind the parameters to the argument expressions (evaluated in the caller's scope), then defaults
         prologue = []
         given = {}
